@@ -273,7 +273,7 @@ pub fn run(ctx: &mut Ctx) {
         },
         &|c: &ACase, info: &mut Info| Verdict::from_result(check_aligned(c, info)),
     );
-    let n = ctx.q(3000, 60000);
+    let n = ctx.q(20000, 200000);
     ctx.explore::<ACase>(
         "aligned_random",
         n,
@@ -292,7 +292,7 @@ pub fn run(ctx: &mut Ctx) {
         },
         &|c: &ACase, info: &mut Info| Verdict::from_result(check_aligned(c, info)),
     );
-    let ne = ctx.q(3000, 60000);
+    let ne = ctx.q(20000, 200000);
     ctx.explore::<ECase>(
         "extra",
         ne,
